@@ -22,7 +22,8 @@ for pid in props:
     mod = load_prop(pid)
     idxs = list(range(N))
     if pid == "C15":
-        idxs = list(range(0, 31402, 31402 // N))[:N] + list(range(31402, 31402 + N))
+        ne = mod.NENUM
+        idxs = list(range(0, ne, max(1, ne // N)))[:N] + list(range(ne, ne + N))
     for idx in idxs:
         execute(mod, seed=run_seed_for(1, pid, "quick", idx), idx=idx, run_cap=300)
     print("ran", pid, len(idxs), flush=True)
